@@ -168,6 +168,11 @@ uint64_t cmb_wtdsummary_merge(struct cmb_wtdsummary *tgt,
     ts->count = dsp1->count + dsp2->count;
     ts->min = (dsp1->min < dsp2->min) ? dsp1->min : dsp2->min;
     ts->max = (dsp1->max > dsp2->max) ? dsp1->max : dsp2->max;
+    if (ts->count == 0u) {
+        /* Both empty, the result is an empty summary (avoid dividing 0 / 0) */
+        *tgt = tws;
+        return 0u;
+    }
 
     const double w1 = ws1->wsum;
     const double w2 = ws2->wsum;
